@@ -86,15 +86,50 @@ func flight0Parse(
 		return 0, &alert.Alert{Level: alert.Fatal, Description: alert.InsufficientSecurity}, dtlserrors.ErrCipherSuiteNoIntersection //nolint:lll
 	}
 
+	if dtlsAlert, err := applyClientHelloExtensions(state, cfg, clientHello); err != nil {
+		return 0, dtlsAlert, err
+	}
+
+	state.RemoteClientHelloSnapshots.Reset()
+	if err := state.RemoteClientHelloSnapshots.RecordWire(pull.Items[0].Raw.Data); err != nil {
+		return 0, nil, err
+	}
+
+	nextFlight := Flight2
+
+	if cfg.InsecureSkipHelloVerify {
+		nextFlight = Flight4
+	}
+
+	return handleHelloResume(clientHello.SessionID, state, cfg, nextFlight)
+}
+
+// applyClientHelloExtensions derives the parameters a ClientHello carries in its
+// extensions. It starts from the defaults every time: with hello verification
+// the first ClientHello is covered by no Finished message, so the parameters are
+// derived again from the ClientHello that echoes the cookie, which is.
+func applyClientHelloExtensions(
+	state *dtlsstate.State12,
+	cfg *dtlsconfig.HandshakeConfig,
+	clientHello *handshake.MessageClientHello,
+) (*alert.Alert, error) {
+	state.ExtendedMasterSecret = false
+	state.ServerName = ""
+	state.PeerSupportedProtocols = nil
+	state.RemoteCertSignatureSchemes = nil
+	if curves := supportedEllipticCurves(cfg.EllipticCurves); len(curves) > 0 {
+		state.NamedCurve = curves[0]
+	}
+
 	for _, val := range clientHello.Extensions {
 		switch ext := val.(type) {
 		case *extension.SupportedGroups:
 			if len(ext.Groups) == 0 {
-				return 0, &alert.Alert{Level: alert.Fatal, Description: alert.InsufficientSecurity}, dtlserrors.ErrNoSupportedEllipticCurves //nolint:lll
+				return &alert.Alert{Level: alert.Fatal, Description: alert.InsufficientSecurity}, dtlserrors.ErrNoSupportedEllipticCurves //nolint:lll
 			}
 			namedCurve, ok := selectEllipticCurve(cfg.EllipticCurves, ext.Groups)
 			if !ok {
-				return 0, &alert.Alert{Level: alert.Fatal, Description: alert.InsufficientSecurity}, dtlserrors.ErrNoSupportedEllipticCurves //nolint:lll
+				return &alert.Alert{Level: alert.Fatal, Description: alert.InsufficientSecurity}, dtlserrors.ErrNoSupportedEllipticCurves //nolint:lll
 			}
 			state.NamedCurve = namedCurve
 		case *extension12.ExtendedMasterSecret:
@@ -114,21 +149,10 @@ func flight0Parse(
 	}
 
 	if cfg.ExtendedMasterSecret == dtlsconfig.RequireExtendedMasterSecret && !state.ExtendedMasterSecret {
-		return 0, &alert.Alert{Level: alert.Fatal, Description: alert.InsufficientSecurity}, dtlserrors.ErrServerRequiredButNoClientEMS //nolint:lll
+		return &alert.Alert{Level: alert.Fatal, Description: alert.InsufficientSecurity}, dtlserrors.ErrServerRequiredButNoClientEMS //nolint:lll
 	}
 
-	state.RemoteClientHelloSnapshots.Reset()
-	if err := state.RemoteClientHelloSnapshots.RecordWire(pull.Items[0].Raw.Data); err != nil {
-		return 0, nil, err
-	}
-
-	nextFlight := Flight2
-
-	if cfg.InsecureSkipHelloVerify {
-		nextFlight = Flight4
-	}
-
-	return handleHelloResume(clientHello.SessionID, state, cfg, nextFlight)
+	return nil, nil //nolint:nilnil
 }
 
 func handleHelloResume(
